@@ -96,7 +96,9 @@ VALID = {
     "string": [("v", "v"), ("a  b", "a  b"), ("", ""), ("a$$b", "a$b"),
                ("(p)", "(p)"), ("<x>", "<x>"), ("42", "42"),
                # a backslash is an ordinary character, also at the end
-               ("C:\\data\\", "C:\\data\\")],
+               ("C:\\data\\", "C:\\data\\"),
+               # text is kept as written: no Unicode (de)composition
+               ("re\u0301sume\u0301 \u212b", "re\u0301sume\u0301 \u212b")],
     "null": [("v", "v"), ("", ""), ("x y", "x y")],
     "integer": [("0", 0), ("42", 42), ("-7", -7), ("007", 7)],
     "boolean": [("yes", True), ("TRUE", True), ("On", True), ("no", False),
@@ -181,7 +183,7 @@ SECTION_NAMES = ["n1", "n2", "N3", "main", "aux", "alpha", "zz",
                  "Straße", "ΣΊΣΥΦΟΣ", "Maſt", "ÉCOLE",
                  # names may end in (or consist of) slashes: '<t dir//>' is
                  # the empty form of a section named 'dir/'
-                 "dir/", "/Srv/www/", "//"]
+                 "dir/", "/Srv/www/", "//", "Re\u0301sume\u0301"]
 HANDLERS = ["h1", "h2", "H3", "h-4"]
 
 
